@@ -597,8 +597,16 @@ theorem ktouch_all : ∀ (k : VKind), KTouch k
 end
 
 /-- `read_in_range` for the TYPED reads: whatever the target and whatever the (arbitrary, possibly inconsistent)
-view, a successful read visited only slots below the length of the array they belong to — the row itself, every
-list / map / fixed-size-list element, every union child slot, every dictionary key — all the way down -/
+view whose union nodes list their children under the type ids 0, 1, 2, … (`unionIdsOK a`), a successful read implies
+`Spec.touchOK t a i`, which has two halves.  LENGTHS: the read visited only slots below the length of the array they
+belong to — the row itself, every list / map / fixed-size-list element, every union child slot, every dictionary
+key — all the way down.  LEAVES (`Spec.leafOK`): at every leaf slot it visited that the bitmap does not mark null, what
+the slot designates lies inside the buffer the view names — the offset pair of a Utf8 / Binary column inside `data`
+(`0 ≤ offsets[i] ≤ offsets[i+1] ≤ data length`, also for an empty pair), the descriptor of a Utf8View / BinaryView
+column inline (length ≤ 12) or with a buffer index below the number of buffers and offset + length inside THAT
+buffer, the row of a FixedSizeBinary column inside `data` (`0 ≤ n`, `(i+1)·n ≤ data length`), and likewise the value
+slot a dictionary key designates (spelled out by `touchOK_leaf_iff`, `readAs_view_designated`,
+`readAs_bytes_designated` below) -/
 theorem readAs_touch_in_range {t : Target} {a : Arr} {i : Nat} {d : DVal} (hids : unionIdsOK a = true)
     (h : readAs Fixes.all t a i = .ok d) : touchOK t a i = true :=
   touchP_all t a i d hids h
@@ -873,7 +881,7 @@ theorem touchEq_refl (t : Target) (a : Arr) (i : Nat) : touchEq t a a i = true :
 
 /-- non-vacuity 1 (byte slices, not whole buffers): a list of strings; the corrupted view has another LAST offset of the
 list, another validity bit, another offset and other DATA BYTES of the string column — all outside what row 0 designates.
-Row 0 agrees (and reads as before), row 1 does not (and is an error) -/
+Row 0 agrees (and reads as on `a`), row 1 does not (and is an error) -/
 example :
     let a : Arr := .list false none [0, 2, 3] ⟨"element", false, []⟩ (.bytes .utf8 (some ⟨[7], 0⟩) [0, 1, 2, 3] [65, 66, 67])
     let a' : Arr := .list false none [0, 2, 99] ⟨"element", false, []⟩ (.bytes .utf8 (some ⟨[3], 0⟩) [0, 1, 2, 9] [65, 66, 255, 1])
